@@ -123,7 +123,17 @@ func streamSelectNodes(r *rand.Rand, i int, tier string) *Case {
 	rs.Status.Desired = pick(r, int32(0), int32(0), int32(len(current)), int32(nn))
 	calls := &Calls{}
 	cl := recordingClient(objs, calls, nil)
-	rec := newEDSReconciler(cl, edsv1.ExtendedDaemonSetSpecStrategyCanaryValidationModeAuto)
+	sw := &switchClient{Client: cl}
+	rec := newEDSReconciler(sw, edsv1.ExtendedDaemonSetSpecStrategyCanaryValidationModeAuto)
+	if r.Intn(3) == 0 {
+		// the same reconciler instance has already selected nodes for this replica set in a world
+		// with a different node population
+		cat = append(cat, "warm-reconciler")
+		sw.use(recordingClient(perturbNodes(r, objs), &Calls{}, nil))
+		warm := &edsv1.ExtendedDaemonSetStatusCanary{ReplicaSet: rs.Name, Nodes: append([]string{}, current...)}
+		Recovered(func() { _ = rec.VerifSelectNodes(logr.Discard(), eds.DeepCopy(), &eds.DeepCopy().Spec, rs.DeepCopy(), warm) })
+		sw.use(cl)
+	}
 	cs := &edsv1.ExtendedDaemonSetStatusCanary{ReplicaSet: rs.Name, Nodes: append([]string{}, current...)}
 	in := map[string]interface{}{"eds": canon.CEDS(eds), "ers": canon.CERS(rs), "current": canon.CanaryStatus{ReplicaSet: rs.Name, Nodes: append([]string{}, current...)}.Nodes,
 		"nodes": cnodes, "pods": cpods}
